@@ -5,6 +5,7 @@ go 1.26.8
 require (
 	github.com/alicebob/miniredis/v2 v2.34.0
 	github.com/anishathalye/porcupine v1.3.0
+	github.com/go-sql-driver/mysql v1.9.0
 	github.com/redis/go-redis/v9 v9.7.3
 	github.com/zeromicro/go-zero v0.0.0
 	go.etcd.io/etcd/api/v3 v3.5.15
@@ -31,7 +32,6 @@ require (
 	github.com/go-openapi/jsonpointer v0.19.6 // indirect
 	github.com/go-openapi/jsonreference v0.20.2 // indirect
 	github.com/go-openapi/swag v0.22.4 // indirect
-	github.com/go-sql-driver/mysql v1.9.0 // indirect
 	github.com/gogo/protobuf v1.3.2 // indirect
 	github.com/golang-jwt/jwt/v4 v4.5.2 // indirect
 	github.com/golang/mock v1.6.0 // indirect
